@@ -35,12 +35,21 @@ func TestTranslateRejectsUnsoundForms(t *testing.T) {
 	}{
 		{"shift8", "byte shift"}, {"shift3", ""}, {"uwrap", "uint"}, {"i8", "int8"},
 		{"textparam", "matched by text"}, {"twoerrs", "matched by text"}, {"divmod", ""}, {"sw", ""},
+		// third audit pass, X3': modelled effects must not vanish inside ignored calls / ignored statements
+		{"nestedEffect", "not in the ignore list"}, {"droppedBody", "contains a modelled effect"},
 	}
 	for _, cs := range cases {
 		tt := trTarget{name: cs.fn, file: "martian/x/x.go", fn: cs.fn, goParams: true, leanTy: "?", resTy: tyInt, retLean: "Int"}
 		switch cs.fn {
 		case "textparam":
 			tt.params = []trParam{{lean: "s0", goText: "s[0]", leanTy: "UInt8", ty: tyByte}}
+		case "nestedEffect":
+			tt.resTy, tt.traceTy, tt.goParams = tyErr, "events", false
+			tt.effects = []trEffect{{"remove", "event", "remove"}}
+		case "droppedBody":
+			tt.resTy, tt.traceTy = tyErr, "events"
+			tt.effects = []trEffect{{"run", "event", "run"}}
+			tt.dropStmts = []string{"if len(s) == 0"}
 		case "twoerrs":
 			tt.resTy, tt.traceTy = tyErr, "events"
 			tt.effects = []trEffect{{"open", "event", "open"}}
